@@ -152,7 +152,10 @@ CLAIMED = {
              "stored key (bget_delete_subtrie, delete_subtrie_override); every reachable trie is canonical (canon_run) and canonical "
              "tries with equal contents are equal (bcanon_unique), hence for EVERY hash function the root depends on the contents "
              "only and is H(b'') when empty (root_depends_only_on_contents, root_empty); a raising call saved nothing "
-             "(raise_changes_nothing) and every node of a new trie is old or just saved (new_nodes_saved). That the kv/branch/leaf "
+             "(raise_changes_nothing) and every node of a new trie is old or just saved (new_nodes_saved). The raw-level transcription "
+             "of _set over node hashes and the database (Model/BinRaw.lean, itself run against the code) returns the hash of the "
+             "tree-level result, saves exactly the listed nodes in order and raises exactly when the tree level does "
+             "(Raw.bin_set_refines, bin_set_blank). That the kv/branch/leaf "
              "byte encoding is the specified one is pinned by the independent canonical encoder of the harness and C16. Tie: outcome, "
              "root, exact database, get/exists after every call; old roots re-read through the Lean Layer-D reader.",
         technique="Lean 4 proof (case-for-case tree model, canonical-form uniqueness) + correspondence check",
